@@ -20,3 +20,10 @@ package util
 //@   requires account != nil
 //@   ensures result == pubkeyOf(account)
 //@   modifies nothing
+//@
+//@ // builder clients are created once per address and cached; a client is returned iff no error is
+//@ // (assumed: the body uses the hierarchical configuration lookups and the go-builder-client constructor)
+//@ func FetchBuilderClient
+//@   trusted
+//@   ensures result1 == nil ==> result0 != nil
+//@   ensures result1 != nil ==> result0 == nil
